@@ -28,15 +28,15 @@ def jobs(tier, seed):
     q = tier == "quick"
     for ver, feat in G1 + [(SSE, -1)]:
         for first in range(6):   # one job per first operation (parallel, each small enough to finish)
-            J.append(dict(entry="h_c06", args=[ver, feat, 1, first], budget=150 if q else 900))
+            J.append(dict(entry="h_c06", args=[ver, feat, 1, first, 0], budget=150 if q else 900))
     k2 = [(SSE, -1), (SSE, 0), (FO4, LOOSE)] if q else [(SSE, -1), (SSE, 0), (FO4, LOOSE), (OB, SKIN), (SK, CTRL), (SSE, SKIN | EXTRA)]
     for ver, feat in k2:
         for first in range(6):
-            J.append(dict(entry="h_c06", args=[ver, feat, 2, first], budget=150 if q else 1500))
+            J.append(dict(entry="h_c06", args=[ver, feat, 2, first, 0], budget=150 if q else 1500))
     if not q:
         for ver, feat in [(SSE, -1), (SSE, 0)]:
             for first in range(6):
-                J.append(dict(entry="h_c06", args=[ver, feat, 3, first], budget=1500))
+                J.append(dict(entry="h_c06", args=[ver, feat, 3, first, 0], budget=1500))
     return J
 
 
